@@ -1,0 +1,23 @@
+//go:build verif
+
+// Contracts read by /verif/govc (comment-only; never compiled into the node).
+
+package PVM
+
+// GP (B.13) C: collapse of the two accumulation contexts. o in {out-of-gas, panic} (or a host-side error) selects the
+// checkpoint context y; every other outcome selects the regular context x; a 32-octet output takes precedence over
+// the yielded hash.
+//@ pred c_rollback(o) = o == PANIC || o == OUT_OF_GAS || iserror(o)
+//@ pred c_hash(o) = isbytes(o) && len(asbytes(o)) == 32
+//@ func C
+//@   props C10
+//@   requires ctx: resultContext.ResultContextX.StorageKeyVal != nil && resultContext.ResultContextY.StorageKeyVal != nil
+//@   ensures gas: result3 == gas
+//@   ensures rollback_state: c_rollback(reasonOrBytes) ==> result0 == resultContext.ResultContextY.PartialState && result5 == *resultContext.ResultContextY.StorageKeyVal
+//@   ensures rollback_transfers: c_rollback(reasonOrBytes) ==> result1 == resultContext.ResultContextY.DeferredTransfers
+//@   ensures rollback_yield: c_rollback(reasonOrBytes) ==> result2 == resultContext.ResultContextY.Exception
+//@   ensures halt_state: !c_rollback(reasonOrBytes) ==> result0 == resultContext.ResultContextX.PartialState && result5 == *resultContext.ResultContextX.StorageKeyVal
+//@   ensures halt_transfers: !c_rollback(reasonOrBytes) ==> result1 == resultContext.ResultContextX.DeferredTransfers
+//@   ensures halt_yield: !c_rollback(reasonOrBytes) && !c_hash(reasonOrBytes) ==> result2 == resultContext.ResultContextX.Exception
+//@   ensures halt_output: !c_rollback(reasonOrBytes) && c_hash(reasonOrBytes) ==> result2 != nil && fresh(result2) && forall(k, 0, 32, (*result2)[k] == asbytes(reasonOrBytes)[k])
+//@   opt loopinv=frame_only() && fresh(serviceBlobs)
